@@ -17,6 +17,13 @@ more5 = {
 'C17': "falsy optional fields dropped from the Conditions JSON; duplicate CSV rows dropped on load",
 'C18': "a component's remaining mass clipped at 0; pure feeds skipping the exhaustion guard",
 'C20': "iteration counter kept on the object between calls; measurement extraction sorting the caller's curve list in place",
+'C01': "first-component mass carried in its own list seeded from the (possibly molar) stated composition; final-step exhaustion turned into a break",
+'C02': "convergence test rewritten with numpy.allclose(atol=precision); a 'cold trap' shortcut scaled with the precision",
+'C04': "UNIQUAC pure-end clamp done in place on the caller's composition; partial pressure capped at the saturation pressure",
+'C06': "a stale name in calculate_separation_factor; a 'negligible back pressure' shortcut in calculate_partial_fluxes",
+'C09': "a conversion memo keyed without the component; driving force floored at 10 % of the feed partial pressure in the flux -> permeance inversion",
+'C12': "the four get_permeance branches 'de-duplicated'; the stated activation energy hoisted out of the per-experiment loop",
+'C19': "from_frame's two independent isna blocks merged; fit_vle's optimiser call wrapped in try/except ValueError",
 }
 for pid in more5:
     t = tried[pid] + "; " + more[pid] + "; " + more5[pid]
